@@ -736,6 +736,17 @@ impl World {
                 }
             }
         }
+        // a pinned object stays pinned until it is unpinned (a collection must not drop the pin)
+        #[cfg(feature = "pinning")]
+        for (id, a) in &new_addr {
+            let so = &self.shadow.objs[id];
+            if so.pinned && self.pin_supported(so) {
+                let r = ObjectReference::from_raw_address(unsafe { Address::from_usize(*a) }).unwrap();
+                if !mmtk::memory_manager::is_pinned(r) {
+                    return fail("pin:lost", format!("object id {} was pinned before the collection and never unpinned, but is_pinned is false after it", id));
+                }
+            }
+        }
         // immortal garbage stays intact for ever
         for o in &self.shadow.immortal_garbage {
             let r = ObjectReference::from_raw_address(unsafe { Address::from_usize(o.addr) }).unwrap();
